@@ -254,6 +254,8 @@ static void iv_fd_epoll_deinit(struct iv_state *st)
 	close(st->u.epoll.epoll_fd);
 }
 
+static int iv_active_fd_w = -1;
+
 static int iv_fd_epoll_create_active_fd(void)
 {
 	int fd;
@@ -281,8 +283,18 @@ static int iv_fd_epoll_create_active_fd(void)
 				 strerror(errno));
 		}
 
+		/*
+		 * Keep the write end open and put a byte in the pipe:
+		 * a pipe whose write end has been closed reports EPOLLHUP
+		 * even while registered with an empty event mask, which
+		 * would make every epoll_wait() return immediately.
+		 */
+		do {
+			ret = write(pfd[1], "", 1);
+		} while (ret < 0 && errno == EINTR);
+
 		fd = pfd[0];
-		close(pfd[1]);
+		iv_active_fd_w = pfd[1];
 	}
 
 	return fd;
@@ -333,8 +345,13 @@ static void iv_fd_epoll_event_rx_off(struct iv_state *st)
 	}
 
 	___mutex_lock(&iv_fd_epoll_active_fd_mutex);
-	if (!--iv_active_fd_refcount)
+	if (!--iv_active_fd_refcount) {
 		close(iv_active_fd);
+		if (iv_active_fd_w != -1) {
+			close(iv_active_fd_w);
+			iv_active_fd_w = -1;
+		}
+	}
 	___mutex_unlock(&iv_fd_epoll_active_fd_mutex);
 
 	st->numobjs--;
